@@ -28,6 +28,7 @@ import marginals2coq  # noqa: E402
 import statespace2coq  # noqa: E402
 import mutation2coq  # noqa: E402
 import coalescent2coq  # noqa: E402
+import serial2coq  # noqa: E402
 
 # one entry per translated source file: translator module, source, committed generated file, equivalence proofs
 TIES = {
@@ -42,6 +43,7 @@ TIES = {
     'marginals': dict(mod=marginals2coq, src='distributions.py', gen='MarginalsGen', equiv='GenMarginalsEquiv'),
     'statespace': dict(mod=statespace2coq, src='state_space.py', gen='StateSpaceGen', equiv='GenStateSpaceEquiv'),
     'coalescent': dict(mod=coalescent2coq, src='distributions.py', gen='CoalescentGen', equiv='GenCoalescentEquiv'),
+    'serial': dict(mod=serial2coq, src='', gen='SerialGen', equiv='GenSerialEquiv', src_is_dir=True),
     'mutation': dict(mod=mutation2coq, src='', gen='MutationGen', equiv='GenMutationEquiv', src_is_dir=True),
     'guards': dict(mod=guards2coq, src='', gen='GuardsGen', equiv='GenGuardsEquiv', src_is_dir=True),
     'inference': dict(mod=inference2coq, src='inference.py', gen='InferenceGen', equiv='GenInferenceEquiv'),
